@@ -200,7 +200,10 @@ func (g *c12) binaries(n int) {
 	if err != nil {
 		return
 	}
-	valid, _ := mz.MarshalBinary()
+	valid, merr := mz.MarshalBinary()
+	if merr != nil || len(valid) == 0 {
+		return // (an instant whose zone offset gob cannot encode: no image to damage; see C13)
+	}
 	restore := func(b []byte) func() (any, error) {
 		return func() (any, error) {
 			m, err := merklize.MerklizerFromBytes(b, merklize.WithDocumentLoader(loader))
